@@ -425,6 +425,7 @@ def dispatch(idx: ProgramIndex, rep: Report, fs: List[ClassInfo]):
                 ok = len(c.args) == n_in and not c.keywords
                 rep.add("C19-4", "%s:%s -> %s.apply" % (fi.module.name, fi.qualname, F.name), "%s:%d" % (fi.module.relpath, c.lineno), ok, "%d positional arguments for %d forward inputs" % (len(c.args), n_in) if ok else "apply is called with %d positional argument(s)%s for %d forward inputs" % (len(c.args), " and keywords" if c.keywords else "", n_in), {})
     rep.floor("C19-4", "Function.apply sites", napply, 6)
+    attached_inputs(idx, rep, by_name)
     guards = {}
     for kname, fname in (("RBFKernel", "RBFCovariance"), ("MaternKernel", "MaternCovariance")):
         K = idx.cls("gpytorch.kernels.%s" % ("rbf_kernel" if kname == "RBFKernel" else "matern_kernel"), kname)
@@ -455,6 +456,55 @@ def dispatch(idx: ProgramIndex, rep: Report, fs: List[ClassInfo]):
     if len(guards) == 2:
         a, b = guards["RBFKernel"], guards["MaternKernel"]
         rep.add("C19-4", "gpytorch.kernels:RBFKernel/MaternKernel[sibling guards]", "gpytorch/kernels/", a == b, "both kernels dispatch on the same disjunct set" if a == b else "RBFKernel and MaternKernel dispatch on different conditions: %s" % sorted(a ^ b), {})
+
+
+# ---- C19-6 ---------------------------------------------------------------------------------------------------------
+def attached_inputs(idx: ProgramIndex, rep: Report, by_name: Dict[str, ClassInfo]):
+    """The hand-written backward delivers a gradient for every tensor input of the Function.  It reaches the user's
+    hyperparameter only if the value handed to `apply` is still attached to it: on every path the argument (inlined) must not pass
+    through .detach() / .data / .item() / a no_grad block, and the choice must not depend on self.training - otherwise the fast
+    path silently returns no (or another) hyperparameter gradient where the generic path returns the true one."""
+    from ..symbolic import inline, walk_paths
+    rep.rule("C19-6", "tensor arguments handed to a custom Function stay attached to the hyperparameters they come from (no detach / .data / no_grad / training-mode switch on the way)")
+    n = 0
+    for fi in idx.all_functions():
+        if not any(isinstance(c.func, ast.Attribute) and c.func.attr == "apply" and isinstance(c.func.value, ast.Name) and c.func.value.id in by_name for c in calls_in(fi.node)):
+            continue
+        sn = fi.params[0] if fi.params else "self"
+        sites: Dict[int, List[str]] = {}
+        for path, seq in walk_paths(fi):
+            mode_dep = [s_ for s_ in path.steps if s_.kind == "assume" and any(isinstance(x, ast.Attribute) and x.attr == "training" and chain(x.value) == sn for x in ast.walk(s_.node))]
+            no_grad_depth = 0
+            for s_ in path.steps:
+                pass
+            for st, env in seq:
+                if not isinstance(st, ast.stmt):
+                    continue
+                for c in (x for x in ast.walk(st) if isinstance(x, ast.Call)):
+                    if not (isinstance(c.func, ast.Attribute) and c.func.attr == "apply" and isinstance(c.func.value, ast.Name) and c.func.value.id in by_name):
+                        continue
+                    probs = sites.setdefault(c.lineno, [])
+                    for a in c.args:
+                        v = inline(a, env)
+                        from_param = any(isinstance(x, ast.Attribute) and chain(x.value) == sn for x in ast.walk(v))
+                        if not from_param or isinstance(v, ast.Lambda):
+                            continue
+                        for x in ast.walk(v):
+                            if isinstance(x, ast.Call) and isinstance(x.func, ast.Attribute) and x.func.attr in ("detach", "detach_", "item", "tolist", "numpy"):
+                                probs.append("argument `%s` is `%s`: detached from the hyperparameter%s" % (" ".join(src(a).split())[:30], " ".join(src(v).split())[:50], (" when " + " ".join(src(mode_dep[0].node).split())[:30] + " is %s" % mode_dep[0].truth) if mode_dep else ""))
+                            if isinstance(x, ast.Attribute) and x.attr == "data":
+                                probs.append("argument `%s` reads `.data`: detached from the hyperparameter" % " ".join(src(a).split())[:30])
+        # lexical no_grad around an apply
+        for w in ast.walk(fi.node):
+            if isinstance(w, (ast.With, ast.AsyncWith)) and any(isinstance(it.context_expr, ast.Call) and chain(it.context_expr.func) in ("torch.no_grad",) for it in w.items):
+                for c in (x for b in w.body for x in ast.walk(b) if isinstance(x, ast.Call)):
+                    if isinstance(c.func, ast.Attribute) and c.func.attr == "apply" and isinstance(c.func.value, ast.Name) and c.func.value.id in by_name:
+                        sites.setdefault(c.lineno, []).append("the Function is applied under torch.no_grad()")
+        for line, probs in sorted(sites.items()):
+            n += 1
+            rep.add("C19-6", "%s:%s[apply @%d]" % (fi.module.name, fi.qualname, sorted(sites).index(line) + 1), "%s:%d" % (fi.module.relpath, line), not probs,
+                    "every tensor argument is the attached hyperparameter (or data) on all paths" if not probs else "; ".join(sorted(set(probs))[:2]), {})
+    rep.floor("C19-6", "Function.apply sites checked for attachment", n, 5)
 
 
 # ---- C19-5 ---------------------------------------------------------------------------------------------------------
